@@ -180,6 +180,9 @@ func cmdCheck(args []string) int {
 			cfg.Bounds[k] = v
 		}
 		ex := &sx.Explorer{P: prog, Cfg: cfg, Entry: entry, Workers: workers, SolverKind: "z3", TimeoutMS: 20000, Seed: seed}
+		if ti == 1 && os.Getenv("VERIF_NO_XSOLVER") == "" {
+			ex.CrossSolver = "cvc5"
+		}
 		if r.TimeBudgetS[ti] > 0 {
 			ex.Deadline = time.Now().Add(time.Duration(r.TimeBudgetS[ti]) * time.Second)
 		}
